@@ -20,7 +20,9 @@ RULE = ('cases = random G-SN networks (1..3 choice blocks of 2..12 branches draw
         'a functional op / in a tensor method, nn.Identity; blocks used once or twice (same / '
         'different resolution); fixed conv/BN/pool layers around) x winner combinations: '
         'exhaustive when the product of branch counts is <= 64, otherwise every branch of every '
-        'block wins at least once plus random combinations; coefficient margin >= 0.05.  '
+        'block wins at least once plus random combinations; coefficient margin >= 0.05; plus tied '
+        'maxima (uniform initial coefficients, partial ties): one branch survives and it is the one '
+        'hard selection evaluates.  '
         'Non-trivial: the winner is not branch 0 for at least one block; distinct = hash of '
         '(network, winners).')
 ASSUMPTIONS = ['hard selection = update_softmax_options(hard=True) + eval mode',
@@ -60,6 +62,10 @@ def run_case(case, ctx):
     blocks = snlib.sn_blocks(desc)
     wrng = random.Random(case['seed'])
     combos, exhaustive = snlib.winner_combinations(desc, wrng, case['limit'])
+    # tied maxima (the uniform initial coefficients are the most common instance): which branch
+    # wins is not prescribed, but exactly one branch must survive and it must be the one the
+    # hard-selection SuperNet evaluates
+    combos = combos + [('tie', 'uniform'), ('tie', 'partial'), ('tie', 'partial-neg')]
     x = snlib.sn_input(desc, case['seed'], 2)
     for st in blocks:
         for b in st['branches']:
@@ -73,7 +79,28 @@ def run_case(case, ctx):
             ctx.skip(type(e).__name__ + ': ' + str(e)[:80])
             return
         sn.eval()
-        alphas = snlib.set_winners(sn, desc, winners, wrng)
+        tie = None
+        if winners and winners[0] == 'tie':
+            tie = winners[1]
+            alphas = {}
+            cmb = dict(snlib.combiners(sn))
+            with torch.no_grad():
+                for st in blocks:
+                    c = cmb[st['name'] + '.sn_combiner']
+                    n = c.alpha.numel()
+                    if tie == 'uniform':
+                        vals = [1.0 / n] * n            # the initial state
+                    else:
+                        top = -0.25 if tie == 'partial-neg' else 0.75
+                        vals = [top - 0.1 - 0.1 * wrng.random() for _ in range(n)]
+                        for i in wrng.sample(range(n), min(n, wrng.choice([2, 2, 3, n]))):
+                            vals[i] = top
+                    c.alpha.data.copy_(torch.tensor(vals))
+                    alphas[st['name']] = vals
+            ctx.cls('tie:' + tie)
+            winners = [None] * len(blocks)
+        else:
+            alphas = snlib.set_winners(sn, desc, winners, wrng)
         sn.update_softmax_options(hard=True)
         with torch.no_grad():
             y_sn = sn(x)
@@ -81,7 +108,8 @@ def run_case(case, ctx):
                         for n, m in sn.seed.named_modules()
                         if 'sn_branches' not in n and 'sn_combiner' not in n and
                         isinstance(m, (nn.Conv2d, nn.Linear, nn.BatchNorm2d))}
-        wkinds = [st['branches'][w]['kind'] for st, w in zip(blocks, winners)]
+        wkinds = [st['branches'][w]['kind'] if w is not None else 'tie'
+                  for st, w in zip(blocks, winners)]
         detail0 = {'winners': winners, 'winner_kinds': wkinds,
                    'n_branches': [len(st['branches']) for st in blocks],
                    'twice': [st.get('twice') for st in blocks]}
@@ -104,9 +132,10 @@ def run_case(case, ctx):
                 mt = re.match(r'^' + re.escape(st['name']) + r'\.sn_branches\.(\d+)(\.|$)', n)
                 if mt:
                     idx.add(int(mt.group(1)))
-            if idx != {w}:
-                ctx.violation('tree', dict(detail0, sig='surviving-branches', block=st['name'],
-                                           surviving=sorted(idx), winner=w))
+            if (w is not None and idx != {w}) or (w is None and len(idx) != 1):
+                ctx.violation('tree', dict(detail0, sig='surviving-branches' + (
+                    ':tie' if w is None else ''), block=st['name'], surviving=sorted(idx),
+                    winner=w, alpha=alphas.get(st['name'])))
         ctx.mon('c03.fixed_layers')
         emods = dict(exported.named_modules())
         for n, sd in fixed_before.items():
@@ -134,7 +163,8 @@ def run_case(case, ctx):
             ctx.violation('nonfinite', dict(detail0, sig='supernet-output-nonfinite'))
         if y_e.shape != y_sn.shape or not torch.equal(y_sn, y_e):
             ctx.violation('output-not-identical', dict(
-                detail0, sig='output', max_abs_diff=float((y_sn - y_e).abs().max())
+                detail0, sig='output' + (':tie-' + tie if tie else ''), alpha=alphas,
+                max_abs_diff=float((y_sn - y_e).abs().max())
                 if y_e.shape == y_sn.shape else 'shape'))
         if any(w != 0 for w in winners):
             ctx.nontriv((case['net_seed'], tuple(winners)))
